@@ -44,6 +44,7 @@ def run(tier):
     chk.floor("get_or_create sites", len(sites), 30)
     _a_hashable(chk, sites)
     _b_key_params(chk, sites)
+    _b_keyed_state(chk, sites)
     _c_purity(chk, sites)
     _d_aliasing(chk, sites)
     _e_invalidation(chk, sites)
@@ -233,6 +234,72 @@ def _b_key_params(chk, sites):
                   f"the memoised factory reads parameter(s) {missing} of {s.method.name}() that do not enter the cache key {ast.unparse(s.key_expr)[:100]}: a later call with different "
                   f"values is served the first result", sample=f"{s.method.name}: every parameter the factory reads ({[p for p in params if p in read]}) occurs in the key",
                   nontrivial=bool([p for p in params if p in read]))
+
+
+def _prop_reads(mod, cls, attr, seen=None, depth=0):
+    """Attributes of self reached by reading self.<attr>: the attribute itself and, when it is a property, what its getter
+    reads (transitively through properties only; method calls are not followed)."""
+    seen = set() if seen is None else seen
+    if attr in seen or depth > 6:
+        return seen
+    seen.add(attr)
+    hit = ri.class_member(mod, cls, attr)
+    if hit is not None and isinstance(hit[2], ast.FunctionDef) and "property" in ri.decorators(hit[2]):
+        inner = [f for f in ast.walk(hit[2]) if isinstance(f, (ast.FunctionDef, ast.Lambda)) and f is not hit[2]]
+        for a in ast.walk(hit[2]):
+            if isinstance(a, ast.Attribute) and isinstance(a.value, ast.Name) and a.value.id == "self" and isinstance(a.ctx, ast.Load):
+                _prop_reads(hit[0], hit[1], a.attr, seen, depth + 1)
+    return seen
+
+
+def _b_keyed_state(chk, sites, rule="C20.b", only_classes=None):
+    """Sibling rule: an attribute that one memo site of a class puts into its key is varying logical state; every other
+    site of the class whose factory reads that attribute (directly or through properties) must key on it too, unless the
+    attribute's setter drops that site's entries."""
+    by_cls = {}
+    for s in sites:
+        by_cls.setdefault((s.mod.name, s.cls.name), []).append(s)
+    n = 0
+    for (mname, cname), ss in by_cls.items():
+        if only_classes is not None and cname not in only_classes:
+            continue
+        mod, cls = ss[0].mod, ss[0].cls
+        key_attrs = {}
+        for s in ss:
+            attrs = set()
+            for a in (_key_args(s) or []):
+                for x in ast.walk(a):
+                    if isinstance(x, ast.Attribute) and isinstance(x.value, ast.Name) and x.value.id == "self":
+                        attrs |= _prop_reads(mod, cls, x.attr)
+            key_attrs[id(s)] = attrs
+        keyed = set().union(*key_attrs.values()) if key_attrs else set()
+        # only plain data attributes count as state (not helper objects such as domain_obj / services)
+        state = {a for a in keyed if a.startswith("_") and any(isinstance(t, ast.Attribute) and t.attr == a and isinstance(t.ctx, ast.Store)
+                                                                 for m in cls.body if isinstance(m, ast.FunctionDef) and m.name != "__init__" for t in ast.walk(m))}
+        for s in ss:
+            node = s.factory if not isinstance(s.factory, ast.Lambda) else s.factory.body
+            reads = set()
+            for a in ast.walk(node):
+                if isinstance(a, ast.Attribute) and isinstance(a.value, ast.Name) and a.value.id == "self" and isinstance(a.ctx, ast.Load):
+                    reads |= _prop_reads(mod, cls, a.attr)
+            for attr in sorted(state & reads - key_attrs[id(s)]):
+                # dropped by the setter?
+                tag = _site_tag(s) or s.method.name
+                dropped = False
+                for meth in [f for f in cls.body if isinstance(f, ast.FunctionDef)]:
+                    assigns = [t for st in ast.walk(meth) if isinstance(st, (ast.Assign, ast.AugAssign)) for t in (st.targets if isinstance(st, ast.Assign) else [st.target])
+                               if isinstance(t, ast.Attribute) and isinstance(t.value, ast.Name) and t.value.id == "self" and t.attr == attr]
+                    if not assigns or meth.name == "__init__":
+                        continue
+                    resets = [c for c in ast.walk(meth) if isinstance(c, ast.Call) and isinstance(c.func, ast.Attribute) and c.func.attr in ("reset", "clear_caches")]
+                    if any(not c.args and not c.keywords for c in resets) or tag in {k.value for c in resets for k in ast.walk(c) if isinstance(k, ast.Constant) and isinstance(k.value, str)}:
+                        dropped = True
+                n += 1
+                chk.check(dropped, rule, f"{s.name}[state {attr}]",
+                          f"the memoised factory of {s.method.name}() depends on self.{attr} (which other cache keys of {cname} include) but its key {ast.unparse(s.key_expr)[:80]} does not, "
+                          f"and assigning {attr} does not drop these entries: after {attr} changes the old value is served",
+                          sample=f"{s.method.name}: depends on {attr}; keyed or invalidated")
+    return n
 
 
 # ------------------------------------------------------------------------------------------------ c
